@@ -108,6 +108,30 @@ pub fn run_norm(args: &Args) -> (u64, u64) {
         };
         norm_cmp(&mut tr, a, &bs);
     }
+    // ordering / equality / hashing of strings that share a prefix and differ in one or two later positions
+    for base in ["AAAAAAAAAAAAAAAA", "abcdefghijklmnop", "0123456789", "zzzzzzzzzzzz"] {
+        let bb: Vec<u8> = base.bytes().collect();
+        for i in 0..bb.len() {
+            for j in (i + 1)..bb.len() {
+                if !thorough && (i * 7 + j) % 3 != 0 {
+                    continue;
+                }
+                let mut x = bb.clone();
+                let mut y = bb.clone();
+                x[i] = b'B';
+                y[j] = b'B';
+                norm_cmp(&mut tr, std::str::from_utf8(&x).unwrap(), std::str::from_utf8(&y).unwrap());
+                let mut z = bb.clone();
+                z[i] = b'!';
+                z[j] = b'~';
+                norm_cmp(&mut tr, std::str::from_utf8(&x).unwrap(), std::str::from_utf8(&z).unwrap());
+            }
+        }
+        // proper prefixes against the full string
+        for n in 1..bb.len() {
+            norm_cmp(&mut tr, &base[..n], base);
+        }
+    }
     // exhaustive sweep: every Unicode scalar value at position `pos` of an otherwise valid string
     let positions: Vec<usize> = if thorough { (0..=16).collect() } else { vec![0, 7, 15] };
     for pos in positions {
@@ -423,6 +447,17 @@ fn card_geometry_events(tr: &mut Tr, rng: &mut StdRng, d: u8, h: u8, w: u8, all_
             data[c] = rng.gen_range(0..10);
         }
     }
+    // from_data accepts exactly digit_count * height * width digits
+    let expect = MatrixCard::get_matrix_card_size(d, h, w);
+    let mut short = data.clone();
+    short.pop();
+    let mut long = data.clone();
+    long.push(1);
+    tr.ev(json!({"ev": "CardSize", "d": d, "h": h, "w": w, "size": expect,
+                 "acceptsExact": MatrixCard::from_data(d, h, w, data.clone()).is_some(),
+                 "acceptsShort": MatrixCard::from_data(d, h, w, short).is_some(),
+                 "acceptsLong": MatrixCard::from_data(d, h, w, long).is_some(),
+                 "newLen": MatrixCard::new(d, h, w).data().len()}));
     let card = MatrixCard::from_data(d, h, w, data.clone())?;
     let printed: Vec<String> = card.to_printer().collect();
     let coords: Vec<(u8, u8)> = if all_cells {
@@ -690,7 +725,7 @@ pub fn run_rng(args: &Args) -> (u64, u64) {
     draws_event(&mut tr, "PinGridSeed", "get_pin_grid_seed", o, r, u, s, json!({}));
     let (o, r, u, s) = batch(n, threads, |_| wow_srp::matrix_card::get_matrix_card_seed().to_le_bytes().to_vec());
     draws_event(&mut tr, "MatrixSeed", "get_matrix_card_seed", o, r, u, s, json!({}));
-    let cards = (n / 8).max(64);
+    let cards = if thorough { 16000 } else { 2560 };
     let (o, r, u, s) = batch(cards, threads, |_| MatrixCard::new(2, 10, 8).data().to_vec());
     draws_event(&mut tr, "MatrixDigits", "MatrixCard::new(2,10,8)", o, r, u, s, json!({}));
     tr.finish()
